@@ -467,7 +467,7 @@ def run_job(job, io):
                 viol('not-atomic', site, 'observable registry state changed although the call raised %s' % type(raised).__name__)
             del raised
             gc.collect()
-            if rc_cls0 is not None and cls is cls_in and sys.getrefcount(cls) != rc_cls0:
+            if rc_cls0 is not None and cls is cls_in and opk != 'dataclass' and sys.getrefcount(cls) != rc_cls0:  # a dataclass step creates its own classes; the drawn class is not an argument
                 viol('refcount', site, 'refcount of %s changed %d -> %d across a failing call' % (cls.__name__, rc_cls0, sys.getrefcount(cls)))
             if rc_f0 is not None and f is not None and sys.getrefcount(f) != rc_f0:
                 viol('refcount', site, 'refcount of the callables\' owner changed %d -> %d across a failing register call' % (rc_f0, sys.getrefcount(f)))
